@@ -621,6 +621,27 @@ func NewRig(o RigOpts) (*Rig, error) {
 		srv = s
 		relayTo = fmt.Sprintf("127.0.0.1:%d", p)
 		ups = &upstream.Socket{Address: addr.MustParseAddress(fmt.Sprintf("%s://127.0.0.1:%d", scheme, p))}
+	case "unix", "unixtls", "unixstarttls":
+		// unix-domain stream socket endpoint (the address is the URL's host part, as ProtoAddress.Addr reads it)
+		f, err := os.CreateTemp("", "verif-ep-*.sock")
+		if err != nil {
+			return nil, err
+		}
+		path := f.Name()
+		f.Close()
+		os.Remove(path)
+		r.closers = append(r.closers, func() { os.Remove(path) })
+		scheme := "unix"
+		s := &server.SocketServer{Channels: o.Allow}
+		if o.Carrier == "unixtls" {
+			scheme = "unix+tls"
+			s.ServerConfig = withCert
+		} else if o.Carrier == "unixstarttls" {
+			s.ServerConfig = withCert
+		}
+		s.Address = addr.ProtoAddress{URL: url.URL{Scheme: scheme, Host: path}}
+		srv = s
+		ups = &upstream.Socket{Address: addr.ProtoAddress{URL: url.URL{Scheme: scheme, Host: path}}}
 	case "ws", "wss":
 		p := freePort("tcp")
 		scheme, cscheme := "http", "ws"
